@@ -104,3 +104,23 @@ PROPS["C04"]["rule"] = (DB_RULE + "; in-process save failures (state directory m
                         "delete-version/delete: a child process performing the real operation under strace, its window of file-system calls compared with the model, then every "
                         "call of the window failed with EIO (and ENOSPC where plausible) and the process killed before each call and after the last; a case is (operation, call, errno|kill)")
 PROPS["C04"]["exhaustive"] = True
+
+
+def http_shards(tier, seed, search=False):
+    k, n, steps = (4, 60, 50) if tier == "quick" else (16, 400, 80)
+    return [Shard("http", ["-seed", str(s), "-n", str(n), "-steps", str(steps)]) for s in seeds(seed, k)]
+
+
+PROPS["C08"] = dict(
+    shards=http_shards,
+    trusted=BASE_TRUST + ["net/http (routing, header canonicalisation), encoding/json (bodies are classified by decoding them with the same request type), tailcfg.UnmarshalCapJSON"],
+    assumptions=["WhoIs answers carry non-nil Node and UserProfile (the LocalClient never returns otherwise)"],
+    rule=("requests against the real mux handlers of server.New driven in-process: methods {POST,GET,PUT,HEAD,DELETE,post} x content types {exact, charset, text/plain, none, other case} x "
+          "no-browsers header {setec, other, none, upper case} x remote address {ok, unparsable} x WhoIs {user, tagged, anonymous, error, grants under either capability name, "
+          "empty, malformed} x 7 endpoints x bodies {valid, null, truncated, wrong types, extra fields, trailing data, empty, not JSON}; half of the well-formed ones go through the "
+          "real setec.Client; a case is (endpoint, status, accepted?, raw|client, state changed?)"),
+)
+for _p in ("C01", "C09"):
+    _old = PROPS[_p]["shards"]
+    PROPS[_p]["shards"] = (lambda old: (lambda tier, seed, search=False: old(tier, seed, search) + http_shards(tier, seed, search)))(_old)
+    PROPS[_p]["rule"] = PROPS[_p]["rule"] + "; plus the HTTP family (same operations through the real handlers and the real setec.Client)"
